@@ -51,7 +51,12 @@ class Inline:
 
     def words(self):
         self.kinds.add('word')
-        return self._pair(plain(self.rng))
+        w = plain(self.rng)
+        if self.rng.random() < 0.12:
+            # a `$n` / `$$n` in running text or in a caption is text, not a group of the enclosing template
+            w += ' ' + self.rng.choice(['$1', '$2', '$$1', '$0', '$9', 'US$5'])
+            self.kinds.add('dollar')
+        return self._pair(w)
 
     @staticmethod
     def _pair(s):
@@ -135,7 +140,11 @@ class Inline:
                     parts.append(('<%s> %s' % (u, w), '<a href="%s">%s</a> %s' % (esc_attr(u), esc_attr(u), esc(w))))
                 self.kinds.add('replacement-in-caption')
                 continue
-            parts.append(self._pair(plain(rng, 1, 2)))
+            w = plain(rng, 1, 2)
+            if rng.random() < 0.15:
+                w += ' ' + rng.choice(['$1', '$2', '$$1', '$$2'])
+                self.kinds.add('dollar-in-caption')
+            parts.append(self._pair(w))
         return ' '.join(p[0] for p in parts), ' '.join(p[1] for p in parts)
 
     def replacement(self, depth, banned):
@@ -313,10 +322,16 @@ class C09(Prop):
                 if content.endswith('\\') or '::' in content:
                     continue
                 pre = rng.choice(['', plain(rng) + ' '])
+                if rng.random() < 0.3:
+                    # escaped quotes earlier in the same text (the quote search restarts after each of them)
+                    # (one-character quotes, each character once: known finding F21 is about the others)
+                    for d in rng.sample(['*', '_'], rng.randint(1, 2)):
+                        pre += '\\%s%s%s %s ' % (d, rng.choice(PLAIN), d, rng.choice(['and', 'or', '']))
+                    pre = pre.replace('  ', ' ')
                 post = rng.choice(['', ' ' + plain(rng)])
                 q = rng.choice(['`', '``'])
                 src = head + pre + q + content + q + post
-                exp = '<p>' + esc(pre) + '<code>' + esc(content) + '</code>' + esc(post) + '</p>'
+                exp = '<p>' + esc(pre.replace('\\', '')) + '<code>' + esc(content) + '</code>' + esc(post) + '</p>'
             else:
                 lines = [l for l in markup_soup(rng, ctx.repo) if l.strip() != '']
                 if not lines:
